@@ -125,7 +125,7 @@ func c13BackgroundJobs(r *vlib.Run) {
 				io.WriteString(in, encodeCommand("tail:plain=true "+files[2]+" regex:noop "))
 			}
 		}
-		open := vlib.OpenFilesUnder(srv.D.Pid(), realData)
+		open := distinctStrings(vlib.OpenFilesUnder(srv.D.Pid(), realData))
 		n := 0
 		for _, f := range open {
 			if strings.Contains(f, "/tail-") {
@@ -200,7 +200,7 @@ func c13Serverless(r *vlib.Run) {
 						return
 					default:
 					}
-					open := vlib.OpenFilesUnder(pid, sub)
+					open := distinctStrings(vlib.OpenFilesUnder(pid, sub))
 					samples++
 					if len(open) > maxOpen {
 						maxOpen, worst = len(open), open
@@ -240,6 +240,18 @@ func c13Serverless(r *vlib.Run) {
 			r.Violation("reads-in-progress-differ-from-min(limit,live)", detail)
 		}
 	}
+}
+
+func distinctStrings(ss []string) []string {
+	seen := map[string]bool{}
+	var out []string
+	for _, x := range ss {
+		if !seen[x] {
+			seen[x] = true
+			out = append(out, x)
+		}
+	}
+	return out
 }
 
 func c13(r *vlib.Run) int {
@@ -315,7 +327,9 @@ func c13Body(r *vlib.Run) int {
 		var overLimit string
 		stopSampler := make(chan struct{})
 		count := func() (int, int, []string) {
-			files := vlib.OpenFilesUnder(srv.D.Pid(), realData)
+			// distinct files: the follower's periodic truncation check opens the
+			// path a second time for an instant
+			files := distinctStrings(vlib.OpenFilesUnder(srv.D.Pid(), realData))
 			c, t := 0, 0
 			for _, f := range files {
 				if strings.Contains(f, "/cat-") {
